@@ -102,6 +102,10 @@ def build_net(spec):
                                  max_ports=5, unnamed_frac=spec.get("unnamed", 0.0))
         else:
             nl = gen.gen_netlist(rng, data=False, n_libs=(1, 3), unnamed_frac=spec.get("unnamed", 0.0))
+        if spec.get("twins"):
+            add_twins(nl, random.Random("twins-%d" % spec["seed"]))
+        if spec.get("refused"):
+            add_refused(nl, random.Random("refused-%d" % spec["seed"]))
     finally:
         if had:
             nsm.default = old
@@ -112,6 +116,109 @@ def build_net(spec):
                 pass
     decorate(nl, rng, spec.get("policy", "DEFAULT"), idents=True)
     return nl
+
+
+GHOSTS = {}   # id(netlist) -> identifiers / names carried by elements whose attachment was refused
+
+
+def add_refused(nl, rng):
+    """A few refused attachments before the queries (an orphan whose identifier is new but whose name
+    clashes with a sibling, and the other way round): a refused edit must not leave anything behind in
+    the name index that an exact query could find."""
+    import spydrnet as sdn
+    ghosts = GHOSTS[id(nl)] = []
+    n = 0
+    for lib in nl.libraries:
+        for d in lib.definitions:
+            for lst, mk, add in ((d.children, sdn.Instance, d.add_child), (d.ports, sdn.Port, d.add_port),
+                                 (d.cables, sdn.Cable, d.add_cable)):
+                named = [e for e in lst if e.name]
+                if not named or rng.random() < 0.5:
+                    continue
+                a = rng.choice(named)
+                o = mk()
+                n += 1
+                gid = "ghost%d_Q" % n
+                try:
+                    if rng.random() < 0.7 or "EDIF.identifier" not in a:
+                        o["EDIF.identifier"] = gid
+                        o.name = a.name                       # the name clashes, the identifier is new
+                        ghosts.append(gid)
+                    else:
+                        o["EDIF.identifier"] = a["EDIF.identifier"]   # the identifier clashes, the name is new
+                        o.name = gid
+                        ghosts.append(gid)
+                    add(o)
+                    lst_now = list(lst)
+                    if any(x is o for x in lst_now):
+                        # accepted (e.g. DEFAULT policy does not police identifiers): take it out again
+                        {sdn.Instance: d.remove_child, sdn.Port: d.remove_port, sdn.Cable: d.remove_cable}[mk](o)
+                except ValueError:
+                    pass
+
+
+def case_variant(name, rng):
+    idx = [i for i, c in enumerate(name) if c.isalpha()]
+    if not idx:
+        return name
+    r = rng.random()
+    if r < 0.4:
+        return name.swapcase()
+    if r < 0.7:
+        return name.upper() if name.upper() != name else name.lower()
+    i = rng.choice(idx)
+    return name[:i] + name[i].swapcase() + name[i + 1:]
+
+
+def add_twins(nl, rng):
+    """Siblings whose names differ only in letter case (legal under both policies: `.NAME` is case
+    sensitive), at every level: libraries, definitions, ports, cables and child instances.  A twin
+    child references the same definition as its sibling, so whole hierarchical paths below them are
+    equal up to case (`Core/reg`, `core/REG`)."""
+    def fresh(sibs, name):
+        have = set(x.name for x in sibs)
+        for _ in range(4):
+            v = case_variant(name, rng)
+            if v not in have:
+                return v
+        return None
+    defs = [d for lib in nl.libraries for d in lib.definitions]
+    for d in defs:
+        for a in [c for c in list(d.children) if c.name and c.reference is not None]:
+            if rng.random() < 0.45:
+                v = fresh(d.children, a.name)
+                if v:
+                    d.create_child(name=v, reference=a.reference)
+        for a in [p for p in list(d.ports) if p.name]:
+            if rng.random() < 0.35:
+                v = fresh(d.ports, a.name)
+                if v:
+                    p = d.create_port(name=v)
+                    p.create_pins(max(1, len(a.pins)))
+                    if len(p.pins) == 1 and not a.is_scalar:
+                        p.is_scalar = False
+                    if not p.is_scalar:
+                        p.lower_index = a.lower_index
+        for a in [c for c in list(d.cables) if c.name]:
+            if rng.random() < 0.35:
+                v = fresh(d.cables, a.name)
+                if v:
+                    c = d.create_cable(name=v)
+                    c.create_wires(max(1, len(a.wires)))
+                    if len(c.wires) == 1 and not a.is_scalar:
+                        c.is_scalar = False
+                    if not c.is_scalar:
+                        c.lower_index = a.lower_index
+    for lib in list(nl.libraries):
+        for d in [x for x in list(lib.definitions) if x.name]:
+            if rng.random() < 0.2:
+                v = fresh(lib.definitions, d.name)
+                if v:
+                    lib.create_definition(name=v)
+        if lib.name and rng.random() < 0.4:
+            v = fresh(nl.libraries, lib.name)
+            if v:
+                nl.create_library(name=v)
 
 
 UK_POOL = ["k", "kk", "Kk", "ab", "aB", "b[0]", "b[1]", "x.y", "z"]
@@ -198,7 +305,7 @@ class World:
         from spydrnet.util.hierarchical_reference import HRef
         if isinstance(o, HRef):
             return self.hid(o)
-        return self.index[self._k(o)]
+        return self.index.get(self._k(o), -1)     # -1: an element that is not part of the netlist
 
     def hpath(self, h):
         p = []
@@ -928,6 +1035,9 @@ def swap_one(s, rng):
 def gen_patterns(case, rng):
     """list of (pats, is_case, is_re, family)"""
     vals = case.values()
+    gh = GHOSTS.get(id(case.w.nl), [])
+    if gh and case.x.get("key") in (".NAME", "EDIF.identifier") and case.variant == "pipeline":
+        vals = vals + [rng.choice(gh), rng.choice(gh)]
     out = []
     if not vals:
         vals = ["zz"]
@@ -1046,6 +1156,27 @@ def metamorphic(runner, case, pats, is_case, is_re, fast, rng, res):
         b = q(sp, False, False)
         if a is not None and b is not None and sorted(set(a)) != sorted(set(b)):
             fails.append(("case_swap", [input_of(case, sp, False, False, fast, "none"), input_of(case, pats, False, False, fast, "none")], {"orig": a, "swapped": b}))
+    # literal with is_case=False == escaped regex with is_case=False == case-swapped literal
+    if not is_re and all("*" not in p and "?" not in p and not (set(p) & GLOB_UNSAFE) for p in pats):
+        a = q(pats, False, False)
+        xa = input_of(case, pats, False, False, fast, "none")
+        ep = [_re.escape(p) for p in pats]
+        b = q(ep, False, True)
+        if a is not None and b is not None and sorted(set(a)) != sorted(set(b)):
+            fails.append(("literal_nocase_vs_regex", [xa, input_of(case, ep, False, True, fast, "none")], {"literal": a, "regex": b}))
+        for sw in ([p.swapcase() for p in pats], [p.upper() for p in pats], [p.lower() for p in pats]):
+            c = q(sw, False, False)
+            if a is not None and c is not None and sorted(set(a)) != sorted(set(c)):
+                fails.append(("literal_nocase_vs_swapped", [xa, input_of(case, sw, False, False, fast, "none")], {"literal": a, "swapped": c}))
+                break
+    # related queries in both orders within one process (state kept between queries must not leak):
+    # A, then the same patterns with the other is_case / is_re reading, then A again
+    for ic2, ir2 in ((not is_case, is_re), (is_case, not is_re)):
+        q(pats, ic2, ir2)
+        again = q(pats, is_case, is_re)
+        if again is not None and again != base:
+            fails.append(("order_dependence", [X0, input_of(case, pats, ic2, ir2, fast, "none")], {"first": base, "after_related_query": again}))
+            break
     # callback on top
     for fi in ("odd",):
         r = q(pats, is_case, is_re, fi=fi)
@@ -1184,6 +1315,26 @@ def shard_worker(seed, tier, si, nshards, budget_s, net_specs, per_net):
                     except Exception:
                         res["obligations"].append(("harness metamorphic ran", False, traceback.format_exc()[-1500:]))
                         continue
+                    # the same patterns under the other case reading, checked against the Spec right after the
+                    # original query (and the original once more afterwards): both orders in one process
+                    for ic2, ir2 in ((not is_case, is_re), (is_case, is_re)):
+                        if not ir2 and not ic2 and any(set(p) & GLOB_UNSAFE for p in pats):
+                            continue
+                        try:
+                            r2 = runner.check(case, pats, ic2, ir2, fast, "none")
+                        except Exception:
+                            r2 = None
+                        if r2 is not None:
+                            x2 = input_of(case, pats, ic2, ir2, fast, "none")
+                            x2["net"] = ns
+                            x2["after"] = {"is_case": is_case, "is_re": is_re}
+                            k2 = (r2[0].split("+")[0], tuple(r2[1] or ()))
+                            if k2 in reported and r2[0] != "corr":
+                                for sg in r2[1]:
+                                    res.dist("repeat:" + sg)
+                            else:
+                                reported.add(k2)
+                                report(res, runner, w, r2[0], r2[1], x2, r2[2])
                     for rel, xis, detail in mf:
                         # is one side of the relation itself a spec failure (then that is what is reported)?
                         explained = False
@@ -1304,7 +1455,8 @@ def run(ctx):
             else:
                 specs.append({"kind": "gen", "seed": rng.randrange(10 ** 9), "policy": "EDIF" if r < 0.4 else "DEFAULT",
                               "unnamed": 0.15 if rng.random() < 0.25 else 0.0,
-                              "size": "large" if rng.random() < 0.2 else "small"})
+                              "size": "large" if rng.random() < 0.2 else "small",
+                              "twins": rng.random() < 0.35, "refused": rng.random() < 0.3})
         args.append((ctx.seed, ctx.tier, si, nshards, budget, specs, per_net))
     shard.run_shards(ctx, shard_worker, args)
     ht, hf = ctx.hist.get("hyp:True", 0), ctx.hist.get("hyp:False", 0)
